@@ -7,21 +7,9 @@ from harness.core import run_tlc, must_pass
 from harness import symlin as SL
 from harness import gpkit as G
 
-_ln2sq_installed = False
-
-
 def install_atoms():
-    global _ln2sq_installed
-    if _ln2sq_installed:
-        return
-    base = SL.atom
-
-    def atom2(a):
-        if a[0] == "ln2sq":
-            return math.log(2.0) ** 2
-        return base(a)
-    SL.atom = atom2
-    _ln2sq_installed = True
+    """kept for callers: all atom kinds are now evaluated by harness.symlin directly"""
+    return
 
 
 def explore(ck, label="gp_reference"):
